@@ -356,8 +356,13 @@ def emit_case(case, out):
         parts.append("check_interp %s %s raw2 q %s %s own_f" % (exact, cm, E.lst(out["q_gen2"], _ext), E.lst(out["q_gen2"], _fl)))
     ig = out["igmap"]
     igmeta = "(%s, %s, %s, %s)" % tuple(E.lst(m if m is not None else [], E.z) for m in ig["meta"])
-    parts.append("check_igmap %s %s raw q (%s, %s, %s, %s) %s" % (exact, cm, E.lst(ig["chr"], E.z), E.lst(ig["phy"], E.z),
-                 "qg" if ig["gen"] == out["q_gen"] else E.lst(ig["gen"], _ext), igmeta, E.lst(out["igmap_spline_keys"], E.z)))
+    if case["cls"] == "ext":
+        pay_in = [[qq[1] + 1, i, -1] for i, qq in enumerate(case["query"])]
+        pay_out = [[ig["stop"][i], ig["name"][i] if ig["name"] is not None else -1, ig["fncode"][i] if ig["fncode"] is not None else -1] for i in range(len(ig["chr"]))]
+    else:
+        pay_in = pay_out = []
+    parts.append("check_igmap %s %s raw q %s (%s, %s, %s, %s) %s %s" % (exact, cm, E.lst2(pay_in, E.z), E.lst(ig["chr"], E.z), E.lst(ig["phy"], E.z),
+                 "qg" if ig["gen"] == out["q_gen"] else E.lst(ig["gen"], _ext), igmeta, E.lst2(pay_out, E.z), E.lst(out["igmap_spline_keys"], E.z)))
     s1, s2, q1, q2 = case["s1"], case["s2"], case["q1"], case["q2"]
     parts.append("check_gdist_g %s %s raw None None None None None None %s %s %s %s" % (exact, cm, E.lst(out["g1"], _ext), E.lst(out["g1"], _fl),
                  E.lst2(out["g2"], _ext), E.lst2(out["g2"], _fl)))
@@ -524,6 +529,8 @@ def _pred_gmap(case, out):
     if [list(t) for t in zip(ig["chr"], ig["phy"])] != [list(q) for q in case["query"]] or ig["gen"] != out["q_gen"]:
         bad.append("interp_gmap: markers/positions of the new map differ from interp_genpos")
     if out["igmap_spline_keys"] != names: bad.append("interp_gmap: spline not carried over")
+    if cls == "ext" and (ig["stop"] != [q[1] + 1 for q in case["query"]] or ig["name"] != list(range(len(case["query"]))) or ig["fncode"] is not None):
+        bad.append("interp_gmap: vrnt_stop/vrnt_name/vrnt_fncode of the new map are not the ones supplied")
     # distances from physical positions
     sq = sorted([tuple(q) for q in case["query"]])
     if [tuple(t) for t in out["sq"]] != sq: bad.append("harness: sorted query")
